@@ -1,11 +1,17 @@
 import Rustemo.Proofs.Forest
+import Rustemo.Proofs.GlrTop
+import Rustemo.Proofs.GlrEnum
+import Rustemo.Proofs.GlrExample
 /-!
 # C03 — the GLR forest contains exactly the derivation trees of the input
 
-**Full statement** (`C03_statement` below is the part about the forest API; the claim that the
-graph-structured-stack engine puts exactly the derivation trees into the forest is NOT proved —
-Scott–Johnstone's argument is a long paper proof — and is decided by correspondence with an
-independent derivation enumerator on generated grammars and inputs).
+**Full statement** (`C03_statement` below is the part about the forest API; of the claim that the
+graph-structured-stack engine puts exactly the derivation trees into the forest, the direction
+"every tree of the forest is a derivation tree of the input" and "the engine never panics" ARE proved
+of the engine model `Glr.parse` (Model/Glr.lean, tied to `GlrParser::parse` by correspondence on every
+input) — see the section "The GSS engine" at the end of this file; completeness and
+duplicate-freeness of the engine are stated there in full and are still decided by correspondence
+with an independent derivation enumerator on generated grammars and inputs).
 
 Proved here, for every SPPF shape (the SPPF is an inductive value, i.e. acyclic): the weighted
 mixed-radix index decoding of `Forest::get_tree` / `Tree::children` / `find_tree_root`
@@ -56,5 +62,73 @@ theorem C03_iteration_is_all (f : Forest) (hw : f.roots.WF) (fuel : Nat) (h : f.
 example : (NList.cons (.nonterm 1 (.cons (.mk (.cons (.term 1 0) (.cons (.term 2 0) .nil))) .nil))
            (.cons (.term 3 0) .nil)).WF := by
   simp [NList.WF, SNode.WF, PList.WF, Parent.WF, NList.sum, SNode.solutions]
+
+/-! ## The GSS engine (`GlrParser::parse`, model `Glr.parse` in Model/Glr.lean)
+
+`Cert.glr` (Model/GlrCert.lean) is an executable certificate run by the driver on the table the real compiler
+produced (`glr cert`): the structural certificate with right-nulled reduce entries licensed by a ranked list
+of nullable symbols (`Cert.nulOk`, proved sound: every listed symbol derives the empty string), the
+accessing-symbol check and `Cert.total` for the main automaton.  Regex engines, lexer (string lexer or
+adversarial user lexers), whitespace/Layout handling, partial parsing and fuel are arbitrary. -/
+
+open Rustemo Rustemo.Glr
+
+/-- **(a) Soundness of the engine.**  Every tree `Forest::get_tree(i)` + `Tree::build` can return from the forest
+    the engine builds is a derivation tree from the start symbol MODULO elision of right-nulled tails
+    (`Tree.ValidElided`: at every node the children derive a prefix of the production and every missing symbol
+    derives the empty string); its leaves are tokens the engine shifted on the consecutive levels
+    0, 1, …, n-1 of the graph structured stack (`LeavesAt`; the kinds of these tokens are the yield); and it is
+    the elision of a FULL derivation tree of the start symbol with the same yield. -/
+theorem C03_engine_sound (env : Env) (hcert : Cert.glr env.g env.t = true) (partialParse : Bool) (fuel : Nat)
+    (r : GlrResult) (h : Glr.parse env partialParse fuel = .ok r) (i : Nat) (tr : Tree)
+    (ht : r.getTree i = some tr) :
+    tr.ValidElided env.g env.g.startIdx ∧
+    (∃ n, LeavesAt r.gss (toksOf tr) 0 n) ∧ (toksOf tr).map (·.kind) = tr.yield ∧
+    ∃ full : Tree, full.Valid env.g env.g.startIdx ∧ full.yield = tr.yield ∧ full.ElidedFrom tr := by
+  obtain ⟨n, hv, hl⟩ := result_trees_ok (Glr.parse_sound env hcert partialParse fuel r h) i tr ht
+  exact ⟨hv, ⟨n, hl⟩, toksOf_kinds.1 tr, Tree.complete_elided env.g tr _ hv⟩
+
+/-- the same for the span-free trees of the enumeration model: the forest handed to `Model/Forest.lean` is the
+    erasure of the engine's decorated forest, index by index -/
+theorem C03_engine_forest_is_erasure (r : GlrResult) (i : Nat) :
+    r.forest.getTree i = (r.getTree i).map treeToF ∧ r.forest.solutions = r.droots.sum :=
+  ⟨getTree_erase r i, solutions_erase r⟩
+
+/-- the engine's forest satisfies the hypothesis of `C03_forest_enum` (no parent link without solutions — the
+    case in which `Tree::children` divides by zero) whenever its unfolding is not cut (acyclic SPPF) -/
+theorem C03_engine_forest_wf (env : Env) (hcert : Cert.glr env.g env.t = true) (partialParse : Bool) (fuel : Nat)
+    (r : GlrResult) (h : Glr.parse env partialParse fuel = .ok r) (hc : r.droots.hasCut = false) :
+    r.forest.roots.WF :=
+  forest_wf (Glr.parse_sound env hcert partialParse fuel r h) hc
+
+/-- **(b) No panic.**  No `unwrap` / `expect` / index of `glr/parser.rs` and `glr/gss.rs` that the model marks as
+    `.panic site` is reachable on a certified table, provided the nested LR layout parser does not panic … -/
+theorem C03_engine_no_panic (env : Env) (hcert : Cert.glr env.g env.t = true) (hl : LayoutSafe env)
+    (partialParse : Bool) (fuel : Nat) : ∀ site, Glr.parse env partialParse fuel ≠ .panic site :=
+  Glr.parse_no_panic env hcert hl partialParse fuel
+
+/-- … which is void for a grammar without a Layout rule … -/
+theorem C03_engine_no_panic_no_layout (env : Env) (hcert : Cert.glr env.g env.t = true)
+    (hnl : env.t.layoutState = none) (partialParse : Bool) (fuel : Nat) :
+    ∀ site, Glr.parse env partialParse fuel ≠ .panic site :=
+  Glr.parse_no_panic env hcert (layoutSafe_of_none env hnl) partialParse fuel
+
+/-- … and follows from the LR certificate `Cert.lr` (C15) for tables without right-nulled entries
+    (GLR over `LALR` / `LALR_PAGER` tables, Layout rule or not). -/
+theorem C03_engine_no_panic_plain_table (env : Env) (hcert : Cert.glr env.g env.t = true)
+    (hlr : Cert.lr env.g env.t = true) (partialParse : Bool) (fuel : Nat) :
+    ∀ site, Glr.parse env partialParse fuel ≠ .panic site :=
+  Glr.parse_no_panic env hcert (layoutSafe_of_lr env hlr) partialParse fuel
+
+/-- non-vacuity: the certificate holds of the table the real compiler builds for the right-nullable ambiguous
+    grammar `S: 'a' S A | EMPTY; A: 'a' | EMPTY` (right-nulled reductions `reduce 1 1`, `reduce 1 2`) … -/
+example : Cert.glr Glr.Example.g Glr.Example.t = true := by decide +kernel
+
+/-- … the engine accepts `aa` and `aaa` with 2 and 3 trees, rejects nothing it should accept … -/
+example : Glr.Example.solutionsOf (Glr.parse (Glr.Example.env 2) false 9) = some 2 := by decide +kernel
+example : Glr.Example.solutionsOf (Glr.parse (Glr.Example.env 3) false 12) = some 3 := by decide +kernel
+
+/-- … and `LayoutSafe` holds of it (no Layout rule). -/
+example : (Glr.Example.env 2).t.layoutState = none := rfl
 
 end Rustemo.Props.C03
